@@ -24,8 +24,8 @@
 // oracle (independent of the model, computed from the op line only): the k-th receive index of this rank for q gets
 // exactly the items of the k-th send index of q for this rank; every send index is gathered exactly once; the
 // counts passed to scatter are the numbers of items; when the call has returned on all ranks no posted receive is left
-// without a message (point-to-point operations counted through the MPI profiling interface); returning at all is
-// checked by the per-case alarm().
+// without a message and no message without a receive (point-to-point operations started by the call are counted through
+// the MPI profiling interface); returning at all is checked by the per-case alarm().
 #include <config.h>
 
 #include <mpi.h>
@@ -454,8 +454,9 @@ static Result runCase(const Case& c) {
             fail = where + "rank " + std::to_string(q) + " sent " + std::to_string(sentToMe[q]) + " messages but only " + std::to_string(postedFor[q]) + " receives were posted for it";
         }
       }
-      if (g_maxMsgItems > c.B && fail.empty())
-        fail = "a message of " + std::to_string(g_maxMsgItems) + " items was sent, more than the buffer size";
+      // a message longer than the configured buffer is not a delivery failure (a communicator that silently works with a
+      // bigger buffer still delivers everything), so it is only counted; an overrun of the real buffer is ASan's business
+      if (g_maxMsgItems > c.B && me == 0) stat("calls_with_a_message_longer_than_the_configured_buffer");
       g_maxMsgItems = 0;
     }
   }  // communicator freed here (collective MPI_Comm_free)
